@@ -2,6 +2,7 @@ import RedactVerif.Props.C01
 import RedactVerif.Props.FactsConsts
 import RedactVerif.Props.FactsSkelBuffer
 import RedactVerif.Props.TransBuffer
+import RedactVerif.Props.TransEscape
 /-
 C03 — no envelope spans a line break: each output line is redactable alone.
 
